@@ -9,8 +9,10 @@ CONSTANTS
   StartId = 1
   StartSerial = 0
   StartCtr = 0
+  StaleReads = FALSE
   LockEnforced = TRUE
 INVARIANT Unique
+INVARIANT NoReissue
 INVARIANT CreationInForce
 INVARIANT RefUnique
 POSTCONDITION TraceAccepted
